@@ -35,7 +35,10 @@ def configs(tier):
                 {"kind": "pool", "kth": True, "workers": 1, "cs": 1, "nmax": 1, "api": "imap", "max_tokens": 1, "rq": 1},
                 # FactoryFunctorPool with a chunk quota (1 initial worker, quota 1 => the worker retires after its first chunk
                 # and a spare is started by ReplaceWorkerThread): one call from a fresh pool incl. the invariant of the replace
-                # queue. Refutations do not finish within the budget: this configuration is bug-hunting only (INCONCLUSIVE).
+                # queue. Decided for all schedules with at most 3 pre-emptions (context bound; *measured* 3-4 min per query; 5 pre-emptions: > 25 min);
+                # without the context bound the refutations do not finish within the budget: the second copy of the
+                # configuration is bug-hunting only (INCONCLUSIVE on a correct tree).
+                {"kind": "factory", "workers": 1, "cs": 1, "nmax": 1, "quota": 1, "spares": 1, "context_bound": 3, "Ks": (90, 104)},
                 {"kind": "factory", "workers": 1, "cs": 1, "nmax": 1, "quota": 1, "spares": 1, "fixed_K": 84, "timeout_s": 300}]
     return out
 
